@@ -187,3 +187,11 @@ Proof. exact basis_refuted. Qed.
 Example C12_basis_fixed :
   hd_error (trace (run (ex_params true) (init (ex_params true)) ex_sched)) = Some (EvDeliver 2 (DFwd 1)).
 Proof. exact basis_fixed. Qed.
+
+(* known finding (self-pipelining deadlock) on the model: the nested start of the delivery is
+   blocked on full while the goroutine that would free the slot is the one executing it *)
+Example C12_self_pipe_blocked :
+  let c := run ex_params_self (init ex_params_self) ex_sched_self in
+  ipc c 0 = IDrain /\ ongoing c = [Some 0] /\ spc c 2 = SWaitFull /\ full c = Some 2 /\
+  step ex_params_self c (TStart 2) = None /\ step ex_params_self c (TStartCtx 2) = None.
+Proof. exact self_pipe_blocked. Qed.
